@@ -203,4 +203,19 @@ TEXT = {
         "technique": "Lean 4 proof of totality and of every extracted invariant!() site + unsafe/dev-build "
                      "differential replay with child-process fault observation",
     },
+    "C18": {
+        "level": "Proof over the effect graph extracted from the current source (224 function nodes, over-approximate "
+                 "call edges): no function reachable from any core operation is an allocating function "
+                 "(core_ops_alloc_free: kernel-checked closed set containing all roots and no allocating node); "
+                 "the only allocating construct in non-test code is the vec! buffer of hash_stream_common "
+                 "(alloc_sites_exact), in a file gated on std+easy-functions, extern crate alloc gated on the alloc "
+                 "feature, crate no_std without std (alloc_gated); the stream helpers do reach it "
+                 "(stream_helpers_allocate). Build obligation on every run: cargo build --no-default-features of the "
+                 "library (no std, no alloc) succeeds. Correspondence: counting global allocator = 0 around every "
+                 "core operation group in five configurations, > 0 around to_string / hash_stream.",
+        "note": COMMON_NOTE + " PARTIAL: syntactic over-approximation; std/dependency allocations only by the "
+                "run-time counter.",
+        "technique": "Lean 4 reachability proof over a call/effect graph regenerated from source + counting "
+                     "allocator + no-std/no-alloc build",
+    },
 }
